@@ -98,6 +98,9 @@ pub fn serde_family(m: &mut M, r: &mut Rng, n: u64) {
         m.call("serde", "de_seq", "value", Some(1), &[A::FL(vec![x.hi(), x.lo()])]);
         m.call("serde", "de_map", "value", Some(1), &[sl(&["hi", "lo"]), A::FL(vec![x.hi(), x.lo()])]);
         m.call("serde", "de_map", "value", Some(1), &[sl(&["lo", "hi"]), A::FL(vec![x.lo(), x.hi()])]);
+        // the same maps through a streaming MapAccess that does not police unread entries itself
+        m.call("serde", "de_map", "stream", Some(1), &[sl(&["hi", "lo"]), A::FL(vec![x.hi(), x.lo()])]);
+        m.call("serde", "de_map", "stream", Some(1), &[sl(&["lo", "hi"]), A::FL(vec![x.lo(), x.hi()])]);
         m.call("serde", "de_json", "json", Some(1), &[A::S("seq".into()), sl(&[]), A::FL(vec![x.hi(), x.lo()])]);
         m.call("serde", "de_json", "json", Some(1), &[A::S("map".into()), sl(&["lo", "hi"]), A::FL(vec![x.lo(), x.hi()])]);
         // --- arbitrary (hi, lo) pairs, overlapping or not, non-finite
@@ -114,16 +117,20 @@ pub fn serde_family(m: &mut M, r: &mut Rng, n: u64) {
         m.call("serde", "de_seq", "value", Some(2), &[A::FL(vec![a, b])]);
         m.call("serde", "de_map", "value", Some(2), &[sl(&["hi", "lo"]), A::FL(vec![a, b])]);
         m.call("serde", "de_map", "value", Some(2), &[sl(&["lo", "hi"]), A::FL(vec![b, a])]);
+        m.call("serde", "de_map", "stream", Some(2), &[sl(&["hi", "lo"]), A::FL(vec![a, b])]);
+        m.call("serde", "de_map", "stream", Some(2), &[sl(&["lo", "hi"]), A::FL(vec![b, a])]);
         if a.is_finite() && b.is_finite() {
             m.call("serde", "de_json", "json", Some(2), &[A::S("map".into()), sl(&["hi", "lo"]), A::FL(vec![a, b])]);
             m.call("serde", "de_json", "json", Some(2), &[A::S("seq".into()), sl(&[]), A::FL(vec![a, b])]);
         }
         // --- malformed shapes: missing, duplicate, unknown field; short sequences
         if i % 2 == 0 {
-            let shapes: [&[&str]; 9] = [&["hi"], &["lo"], &[], &["hi", "hi", "lo"], &["hi", "lo", "lo"], &["hi", "lo", "zz"], &["zz", "hi", "lo"], &["hi", "hi"], &["secs", "nanos"]];
+            let shapes: [&[&str]; 15] = [&["hi"], &["lo"], &[], &["hi", "hi", "lo"], &["hi", "lo", "lo"], &["hi", "lo", "zz"], &["zz", "hi", "lo"], &["hi", "hi"], &["secs", "nanos"],
+                &["hi", "lo", "hi"], &["lo", "hi", "hi"], &["lo", "hi", "lo"], &["lo", "hi", "zz"], &["hi", "zz", "lo"], &["lo", "lo"]];
             let sh = *r.pick(&shapes);
             let vals: Vec<f64> = sh.iter().map(|k| if *k == "lo" { x.lo() } else { x.hi() }).collect();
             m.call("serde", "de_map", "value", Some(3), &[sl(sh), A::FL(vals.clone())]);
+            m.call("serde", "de_map", "stream", Some(3), &[sl(sh), A::FL(vals.clone())]);
             m.call("serde", "de_json", "json", Some(3), &[A::S("map".into()), sl(sh), A::FL(vals.clone())]);
             // the same malformed shapes with special words in some slots (NaN / infinity / zeros cannot be
             // written in JSON, so only through serde's value deserializer)
@@ -136,6 +143,7 @@ pub fn serde_family(m: &mut M, r: &mut Rng, n: u64) {
             if !v2.is_empty() && r.coin() {
                 v2[0] = f64::NAN;
             }
+            m.call("serde", "de_map", "stream", Some(3), &[sl(sh), A::FL(v2.clone())]);
             m.call("serde", "de_map", "value", Some(3), &[sl(sh), A::FL(v2)]);
             let short: Vec<f64> = if r.coin() { vec![x.hi()] } else { vec![] };
             m.call("serde", "de_seq", "value", Some(3), &[A::FL(short.clone())]);
